@@ -260,8 +260,9 @@ START_SPELLINGS = {
     "wildcard": ("# thailint: ignore-start nesting.*", {"nesting.*"}),
     # docs/stateless-class-linter.md "Level 3: Block-Level Ignore": bracket form
     "bracket-form": ("# thailint: ignore-start[stateless-class]", {"stateless-class"}),
+    "bracket-two-rules": ("// thailint: ignore-start[magic-numbers, nesting]", {"magic-numbers", "nesting"}),
 }
-START_RECORDED = {"bracket-form": {"*"}}  # known finding C04-ignore-start-bracket-means-all: what the code returns instead
+START_RECORDED = {}  # recorded deviations (none: C04-ignore-start-bracket-means-all is repaired)
 
 
 @custom("c04-start-rules", props=["C04"])
